@@ -11,7 +11,8 @@ def check(ctx):
         "items' is_sampled, true without a token; R4 SpanLine::{start_span, add_event, add_properties, with_properties} "
         "reach the span queue and the caller's closure only across is_sampled == true; R5 is_sampled/trace_id are copied "
         "(never recomputed) into every derived CollectTokenItem and into the SpanContext built by from_span / "
-        "current_local_parent.")
+        "current_local_parent; R6 set_local_parent on a recording span always opens a scope of its own (an unsampled span's "
+        "scope shields the enclosing one).")
     ctx.not_decided = "absence of output for all programs (every path to the queue passes the filter; programs are not enumerated)."
     facts = ctx.facts("E")
     provrules.rule_root_sampling(ctx, facts, "R1")
